@@ -120,6 +120,12 @@ def numLoop : Bytes → Int → Int
     if c < 48 ∨ 57 < c ∨ num ≥ 100000000 then -1
     else numLoop rest (num * 10 + (c.toNat - 48 : Nat))
 
+/-- the "Parse number" part of `extract`: the number a reference name denotes
+(`-1`: not a number — the name of a named group): decimal digits, the accumulated
+value checked against `1e8` BEFORE each digit, no leading zero. -/
+def refNum (name : Bytes) : Int :=
+  if name.head? = some 48 ∧ name.length > 1 then -1 else numLoop name 0
+
 /-- `extract(str)`: `(name, num, rest)` or `none` for `ok = false`. -/
 def extract (isName : Rune → Bool) (str0 : Bytes) : Option (Bytes × Int × Bytes) :=
   match str0 with
@@ -136,9 +142,7 @@ def extract (isName : Rune → Bool) (str0 : Bytes) : Option (Bytes × Int × By
       match closed with
       | none => none
       | some i' =>
-        let num := numLoop name 0
-        let num := if name.head? = some 48 ∧ name.length > 1 then -1 else num
-        some (name, num, str.drop i')
+        some (name, refNum name, str.drop i')
 
 /-- append `src[match[2k]:match[2k+1]]` if the group exists and took part -/
 def appendGroup (src : Bytes) (m : Match) (k : Int) (dst : Bytes) : Res (Option Bytes) :=
